@@ -345,7 +345,21 @@ static void sweep_item(uint64_t i, CaseInfo& ci) {
   mpz_mod(z.c, z.a, z.b); REQUIRE(int_from_mpz(z.c) == ref::emod(N, D), "mpz_mod(%ld,%ld)", n, d);
   if (n % d == 0) { mpz_divexact(z.c, z.a, z.b); REQUIRE(int_from_mpz(z.c) == Int((long long)(n / d)), "mpz_divexact(%ld,%ld)", n, d); if (d > 0) { mpz_divexact_ui(z.c, z.a, (unsigned long)d); REQUIRE(int_from_mpz(z.c) == Int((long long)(n / d)), "mpz_divexact_ui(%ld,%ld)", n, d); } }
 }
+// rare class: divisors around INV_DIVAPPR_Q_THRESHOLD (14326 limbs in the pinned table; the approximate-quotient-by-inverse path of
+// mpn_tdiv_q), far above the size cap of the ordinary cases
+static void case_huge(ByteSource& in, CaseInfo& ci) {
+  size_t T = std::min<size_t>(INV_DIVAPPR_Q_THRESHOLD, 20000); size_t dn = T - 3 + (size_t)in.range(0, T / 4 + 6);
+  DivCase c = gen_div(in, ci, false, dn, 2 * dn + 40 + (size_t)in.range(0, dn / 2));
+  size_t nn = std::max(c.n.size(), dn); Limbs np(nn, 0); std::copy(c.n.m.begin(), c.n.m.end(), np.begin()); Limbs dp = c.d.m; dn = dp.size(); size_t qn = nn - dn + 1;
+  bool qonly = in.pick({3, 1}) == 0; ci.label("huge_inv_divappr"); ci.nontrivial = true; ci.d("%s nn=%zu dn=%zu ", qonly ? "mpn_tdiv_q" : "mpn_tdiv_qr", nn, dn); DESC(ci, "n=" + show(c.n, 64) + " d=" + show(c.d, 64));
+  Guarded q(qn), r(dn); Limbs n0 = np, d0 = dp;
+  if (qonly) mpn_tdiv_q(q.p(), np.data(), nn, dp.data(), dn); else mpn_tdiv_qr(q.p(), r.p(), 0, np.data(), nn, dp.data(), dn);
+  REQUIRE(q.intact() && r.intact(), "%s(nn=%zu,dn=%zu): wrote outside its areas", qonly ? "mpn_tdiv_q" : "mpn_tdiv_qr", nn, dn); REQUIRE(np == n0 && dp == d0, "huge division: a source operand was modified");
+  REQUIRE(Int::from_limbs(q.p(), qn) == c.q, "%s(nn=%zu,dn=%zu): wrong quotient", qonly ? "mpn_tdiv_q" : "mpn_tdiv_qr", nn, dn);
+  if (!qonly) REQUIRE(Int::from_limbs(r.p(), dn) == c.r, "mpn_tdiv_qr(nn=%zu,dn=%zu): wrong remainder", nn, dn);
+}
 static void check(ByteSource& in, CaseInfo& ci) {
+  if (in.scale >= 90 && (in.u8() ^ 0xA5u) < 2 && in.chance(64)) { case_huge(in, ci); return; }   // ~1 in 512 of the top size classes; never for an exhausted (all-zero) stream
   switch (in.pick({6, 2, 4, 1, 7, 4, 3, 6, 4})) {
     case 8: case_tdiv_q(in, ci); break;
     case 0: case_tdiv_qr(in, ci); break; case 1: case_divrem(in, ci); break; case 2: case_divrem_1(in, ci); break; case 3: case_by3(in, ci); break;
@@ -354,7 +368,7 @@ static void check(ByteSource& in, CaseInfo& ci) {
 }
 namespace eng {
 PropDef g_prop = {"C02",
-  "Cases: one call of mpn_tdiv_qr (qxn=0, top divisor limb non-zero, dividend may have high zero limbs), mpn_tdiv_q (quotient only), mpn_divrem (normalised divisor, qxn 0..3), mpn_divrem_1 (qxn 0..3, n=0 allowed, in place), mpn_mod_1, mpn_divexact_by3c, or of the mpz tdiv/fdiv/cdiv q/r/qr functions (all sign combinations, outputs aliasing inputs), their _ui and _2exp forms, mpz_mod(_ui), mpz_divexact(_ui) on exact inputs only, mpz_divisible_*/congruent_* incl. d=0. Operands by backward construction n=q*d+r: divisor sizes around the schoolbook/divide-and-conquer/inverse thresholds, quotient shapes (short, nn~2dn, long), quotient limbs all-ones, r in {0,1,d-1,random}, dividends whose leading limbs (or several windows) equal the divisor's, products q*d straddling a power of two (n = 2^K - t with all-ones leading limbs, d = ceil(2^K/m)), divisor classes (power of two, B^k-1, top limb 1, normalised, single-limb classes). Oracle: refint: n=q*d+r, |r|<|d|, rounding direction and remainder sign per the manual, _ui return = |r|. Non-trivial: nn>dn or dn>=2 (mpn) / operand >= 2 limbs (mpz). Distinct = hash of all decoded choices.",
-  check, nullptr, {"q_limb_allones", "r_eq_d_minus_1", "r_zero", "unnormalised_d", "short_quotient", "n_prefix_equals_d", "dn_ge_dc_div_qr", "dn_ge_inv_div_qr", "sign:--", "sign:-+", "sign:+-", "d_zero", "divrem_qxn", "mpn_tdiv_q", "qd_straddles_power_of_two", "tdiv_q:short_quotient_branch"}, nullptr, sweep_count, sweep_item,
+  "Cases: one call of mpn_tdiv_qr (qxn=0, top divisor limb non-zero, dividend may have high zero limbs), mpn_tdiv_q (quotient only), mpn_divrem (normalised divisor, qxn 0..3), mpn_divrem_1 (qxn 0..3, n=0 allowed, in place), mpn_mod_1, mpn_divexact_by3c, or of the mpz tdiv/fdiv/cdiv q/r/qr functions (all sign combinations, outputs aliasing inputs), their _ui and _2exp forms, mpz_mod(_ui), mpz_divexact(_ui) on exact inputs only, mpz_divisible_*/congruent_* incl. d=0. A rare class (~1 in 5000) divides by divisors around INV_DIVAPPR_Q_THRESHOLD (14326 limbs in the pinned table). Operands by backward construction n=q*d+r: divisor sizes around the schoolbook/divide-and-conquer/inverse thresholds, quotient shapes (short, nn~2dn, long), quotient limbs all-ones, r in {0,1,d-1,random}, dividends whose leading limbs (or several windows) equal the divisor's, products q*d straddling a power of two (n = 2^K - t with all-ones leading limbs, d = ceil(2^K/m)), divisor classes (power of two, B^k-1, top limb 1, normalised, single-limb classes). Oracle: refint: n=q*d+r, |r|<|d|, rounding direction and remainder sign per the manual, _ui return = |r|. Non-trivial: nn>dn or dn>=2 (mpn) / operand >= 2 limbs (mpz). Distinct = hash of all decoded choices.",
+  check, nullptr, {"q_limb_allones", "r_eq_d_minus_1", "r_zero", "unnormalised_d", "short_quotient", "n_prefix_equals_d", "dn_ge_dc_div_qr", "dn_ge_inv_div_qr", "sign:--", "sign:-+", "sign:+-", "d_zero", "divrem_qxn", "mpn_tdiv_q", "qd_straddles_power_of_two", "tdiv_q:short_quotient_branch", "huge_inv_divappr"}, nullptr, sweep_count, sweep_item,
   "every (n,d) in [-130,130]^2 through mpz_{t,f,c}div_{q,r,qr}, their _ui forms (d>0), the _2exp forms (d a power of two), mpz_mod, mpz_divexact(_ui) when exact, mpz_divisible_p/_ui_p/_2exp_p and mpz_congruent_p/_ui_p for c in [-3,3], d = 0 included where the manual defines it"};
 }
